@@ -215,3 +215,51 @@ Proof.
 Qed.
 
 End Svd.
+
+(* ---- the original SVD path (absolute test sigma > epsilon) does not solve a tiny-scale problem ---- *)
+From Interval Require Import Tactic.
+
+Lemma eps_lt1 : nepsilon ROps < 1.
+Proof. unfold nepsilon, ROps. interval. Qed.
+
+Definition wit_a : R := nepsilon ROps.
+(* estimate size 1, data size 1, J = [eps], Y = [eps]: full rank, condition number 1, exact solution x = 1 *)
+Definition wit_state : ls_state (T:=R) := mk_ls 1 1 [[1]] [0] 1 [[wit_a]] [wit_a] [1] [[0]].
+(* an SVD of a 1x1 non-negative matrix: U = V = [1], sigma = the entry *)
+Definition wit_svd (k : nat) (M : list (list R)) : (list (list R) * list R) * list (list R) :=
+  (([[1]], [mget ROps M 0 0]), [[1]]).
+
+Lemma wit_JtJ : ls_JtJ ROps wit_state = [[0 + wit_a * wit_a]].
+Proof. reflexivity. Qed.
+
+Lemma wit_svd_contract : svd_contract 1 (ls_JtJ ROps wit_state) (wit_svd 1 (ls_JtJ ROps wit_state)).
+Proof.
+  rewrite wit_JtJ. unfold wit_svd, svd_contract.
+  pose proof eps_pos. unfold wit_a.
+  repeat split; intros;
+    repeat match goal with
+           | i : nat |- _ => destruct i as [|i]; [|try lia]
+           end; try lia; cbn; unfold delta; cbn; try lra; try nra.
+Qed.
+
+Lemma wit_refuted :
+  exists st x, ls_estimate_svd_abs ROps wit_svd wit_state = Some (st, x) /\
+               vget ROps x 0 = (wit_a * wit_a) * (wit_a * wit_a) /\
+               grad 1 1 (Jf wit_state) (Yf wit_state) (vget ROps x) 0 <> 0.
+Proof.
+  pose proof eps_pos as Hp. pose proof eps_lt1 as Hl. fold wit_a in Hp, Hl.
+  assert (Hnot : Rltb wit_a (0 + wit_a * wit_a) = false).
+  { apply Rltb_false. nra. }
+  set (x := ls_apply ROps wit_state (svd_pinv ROps 1 (nepsilon ROps) (wit_svd 1 (ls_JtJ ROps wit_state)))).
+  exists (ls_with_inv wit_state (svd_pinv ROps 1 (nepsilon ROps) (wit_svd 1 (ls_JtJ ROps wit_state)))), x.
+  split; [reflexivity|].
+  assert (Hx : vget ROps x 0 = (wit_a * wit_a) * (wit_a * wit_a)).
+  { subst x. cbn. unfold svd_inv_diag, vget. cbn. change (/ 2 ^ Pos.to_nat 52) with wit_a. rewrite Hnot. lra. }
+  clearbody x.
+  split; [exact Hx|].
+  unfold grad, Jx. cbn [sumn]. rewrite Hx. rsimpl. unfold Jf, Yf, mget, vget. cbn. change (/ 2 ^ Pos.to_nat 52) with wit_a.
+  assert (H1 : wit_a * wit_a < 1) by nra. assert (H0 : 0 < wit_a * wit_a) by nra.
+  assert (H2 : wit_a * wit_a * (wit_a * wit_a) < 1) by nra.
+  assert (H3 : wit_a * (0 + wit_a * (wit_a * wit_a * (wit_a * wit_a)) - wit_a) = (wit_a * wit_a) * (wit_a * wit_a * (wit_a * wit_a) - 1)) by ring.
+  intros H. rewrite Rplus_0_l in H. rewrite H3 in H. nra.
+Qed.
